@@ -278,6 +278,7 @@ func c07Check(c c07Case) *vResult {
 	dir := c07Shared.dir
 	w := vNewWorld(vWorldOpts{WebUIBackends: []string{"password"}, CertBackends: []string{"password"}, DisableNormalization: c.NoNorm})
 	defer w.Close()
+	w.vShimPrimary()
 	st := w.state
 	auth, err := kmldap.New(c07Shared.urls, []string{"uid=%s,ou=people,dc=verif"}, 1, c07Shared.roots, st, logger)
 	if err != nil {
@@ -317,7 +318,7 @@ func c07Check(c c07Case) *vResult {
 			dir.Unlock()
 		case "expire":
 			// the record reaches its 96 h: re-issue it with its expiry in the past
-			db := st.db
+			db := w.vRawPrimary()
 			m := primary
 			if op.Store == "cache" {
 				db, m = st.cacheDB, cache
@@ -334,7 +335,7 @@ func c07Check(c c07Case) *vResult {
 			}
 		case "age":
 			// time passes for the stored record: its signed and unsigned expiry move closer by Hours
-			db := st.db
+			db := w.vRawPrimary()
 			m := primary
 			if op.Store == "cache" {
 				db, m = st.cacheDB, cache
@@ -355,6 +356,11 @@ func c07Check(c c07Case) *vResult {
 				}
 			}
 		case "sync":
+			if outage {
+				// the copier cannot reach the primary either: nothing happens
+				res.label("sync-skipped-during-outage")
+				continue
+			}
 			if err := copyDBIntoSQLite(st.db, st.cacheDB, "sqlite"); err != nil {
 				res.violate("sync-error", "op %d: %v", i, err)
 				return res
@@ -369,13 +375,9 @@ func c07Check(c c07Case) *vResult {
 			}
 		case "outage":
 			outage = op.On
-			if outage {
-				st.remoteDBQueryTimeout = 0
-			} else {
-				st.remoteDBQueryTimeout = vPrimaryPatience
-			}
+			w.vPrimaryOutage(outage)
 		case "tamper":
-			db := st.db
+			db := w.vRawPrimary()
 			m := primary
 			if op.Store == "cache" {
 				db, m = st.cacheDB, cache
